@@ -371,6 +371,19 @@ def orc_abbrev(args, res):
         if res != s:
             return "IPv6 / empty text changed to %r" % res
         return None
+    # documented: "The original value if it was not recognised as a supported abbreviation" - more than four octets,
+    # or a prefix part that is not an integer 0..32, is not an abbreviation
+    a, slash, m = s.partition("/")
+    if len(a.split(".")) > 4 and lenient_int(s) is None:
+        if res != s:
+            return "text with more than four octets changed to %r" % res
+        return None
+    if slash:
+        pv = lenient_int(m)
+        if pv is None or not 0 <= pv <= 32:
+            if res != s:
+                return "text whose prefix part is not an integer 0..32 changed to %r" % res
+            return None
     c = _clean_abbrev(s)
     if c is not None:
         os_, p = c
@@ -503,7 +516,7 @@ def cases(rng, tier):
     for ver in (4, 6):
         w = W[ver]
         for p in range(w + 1):
-            nv = (3 if ver == 4 else 2) if quick else 40
+            nv = (5 if ver == 4 else 3) if quick else 40
             for v in values_for(rng, ver, p, nv):
                 for kind in ("prefix", "netmask", "hostmask"):
                     for ip, va, fl in combos(rng, quick, 2):
@@ -536,16 +549,16 @@ def cases(rng, tier):
     # ---- malformed prefix texts and masks on valid printed addresses
     for ver in (4, 6):
         w = W[ver]
-        addrs = [print_addr(rng, ver, v) for v in values_for(rng, ver, rng.randrange(w + 1), 6 if quick else 60)]
+        addrs = [print_addr(rng, ver, v) for v in values_for(rng, ver, rng.randrange(w + 1), 12 if quick else 60)]
         texts = list(BAD_PREFIX) + [str(x) for x in (w + 1, w + 2, w + 3, w, 0, 2 ** 31, 2 ** 64, 10 ** 30, -w, 129, 33, 32,
                                                      128, 255, 256)]
         for t in texts:
-            for a in (rng.sample(addrs, 2) if quick else addrs[:12]):
+            for a in (rng.sample(addrs, 3) if quick else addrs[:12]):
                 for ip, va, fl in combos(rng, quick, 2):
                     yield ("c03_init", [["s", a + "/" + t], ip, _ver(va, ver), fl], "bad_prefix_v%d" % ver)
         masks = flipped_masks(rng, ver, 1 if quick else 6)
         if quick and ver == 6:
-            masks = rng.sample(masks, 700)
+            masks = rng.sample(masks, 1200)
         for m in masks:
             a = rng.choice(addrs)
             ip, va, fl = rng.choice(GRID)
@@ -563,7 +576,7 @@ def cases(rng, tier):
     for fam, ss, alpha in ((4, s4, _c01.ALPHA4), (6, s6, _c01.ALPHA6)):
         for s in ss:
             cands = [s]
-            for _ in range(3 if quick else 60):
+            for _ in range(6 if quick else 60):
                 cands.append(_c01.edit(rng, s, alpha))
             for _ in range(2 if quick else 40):
                 cands.append(_c01.edit(rng, _c01.edit(rng, s, alpha), alpha))
@@ -615,7 +628,7 @@ def cases(rng, tier):
         except (TypeError, ValueError):
             return "%d" % o
 
-    npart = 2500 if quick else 80000
+    npart = 4000 if quick else 80000
     for i in range(npart):
         k = rng.choice((1, 1, 2, 2, 3, 3, 4, 5))
         lenient = rng.random() < 0.25
